@@ -140,7 +140,7 @@ Theorem uid_unique : forall progs nids bds c u, reachable (init progs nids bds) 
 Proof. exact ProofsF.uid_unique. Qed.
 Print Assumptions uid_unique.
 Theorem runs_is_count : forall u l,
-  runs u l = length (filter (fun e => match e with EvRun v _ _ => if uid_dec v u then true else false | _ => false end) l).
+  runs u l = length (filter (fun e => match e with EvRun v _ _ _ => if uid_dec v u then true else false | _ => false end) l).
 Proof. exact ProofsF.runs_is_count. Qed.
 Print Assumptions runs_is_count.
 
